@@ -25,7 +25,7 @@ def run(ctx):
     pool = runlib.program_pool(ctx, n, n_unknown=ctx.scale(40, 300), flags_for_guards=(0, FLAG["NEW_COST_MODEL"]))
     lines = []
     for p, e, tag in pool:
-        f = gen_prog.random_flags(r, 0.15, exclude=FLAG["NEW_COST_MODEL"])
+        f = runlib.pick_flags(r, tag, 0.15, exclude=FLAG["NEW_COST_MODEL"])
         m = r.choice([0, 0, 11000000000])
         lines.append((run_line(p, e, f=f, m=m), run_line(p, e, f=f | FLAG["NEW_COST_MODEL"], m=m)))
     a = vlib.run_impl("run", [x[0] for x in lines])
